@@ -130,8 +130,21 @@ class DBSpace(data_algebra.data_space.DataSpace):
         assert isinstance(allow_overwrite, bool)
         if key in self.description_map.keys():
             assert allow_overwrite
-            self.remove(key)
-        descr = self.db_handle.create_table(table_name=key, q=ops)
+            # build result under a temporary name first, so a failing query does not
+            # lose the table being replaced (and the query may read that table)
+            tmp_key = self._new_tmp_key()
+            self.db_handle.create_table(table_name=tmp_key, q=ops)
+            try:
+                self.remove(key)
+                descr = self.db_handle.create_table(
+                    table_name=key,
+                    q="SELECT * FROM "
+                    + self.db_handle.db_model.quote_table_name(tmp_key),
+                )
+            finally:
+                self.db_handle.drop_table(tmp_key)
+        else:
+            descr = self.db_handle.create_table(table_name=key, q=ops)
         self.description_map[key] = descr
         self.eligable_for_auto_drop_list.add(key)
         return descr
